@@ -2,8 +2,9 @@
 """Generate /verif/MANIFEST.json from the table below (keeps the manifest valid and in one place)."""
 import json, subprocess
 
-ENGINE_NAME = {"TS": "tasksim (task-schedule simulation) + shuttlesim (thread-schedule simulation of the configuration under shuttle)", "LK": "loopsim (event-loop simulation) + coresim (the bare scheduler on generated timed histories)", "LW": "loopsim (event-loop simulation) + wholeloop (the real select! loop on a paused, seeded tokio runtime)", "L": "loopsim (event-loop simulation)", "K": "coresim (core timed-history simulation)", "T": "tasksim (task-schedule simulation)"}
+ENGINE_NAME = {"KL": "coresim (core timed-history simulation) + loopsim (the same monitor at every routing decision of the real shell)", "TS": "tasksim (task-schedule simulation) + shuttlesim (thread-schedule simulation of the configuration under shuttle)", "LK": "loopsim (event-loop simulation) + coresim (the bare scheduler on generated timed histories)", "LW": "loopsim (event-loop simulation) + wholeloop (the real select! loop on a paused, seeded tokio runtime)", "L": "loopsim (event-loop simulation)", "K": "coresim (core timed-history simulation)", "T": "tasksim (task-schedule simulation)"}
 TECH = {
+    "KL": "deterministic simulation with fault injection: seeded timed event histories on the real sans-IO core under a virtual clock (silence, ACK starvation, RTT inflation, loss bursts, resets) plus the same temporal/invariant monitor fed from every routing decision of seeded closed-loop runs on the real shell arms (virtual clock, socket seams, black holes, reloads); seed+plan replay",
     "TS": "deterministic simulation with fault injection: own seeded single-thread executor interleaving control clients line by line (malformed-line faults, reference configuration model, entry-point differential) plus shuttle's seeded random / PCT schedulers over setter and reader threads with the configuration atomics replaced by shuttle's; seed+plan replay",
     "LK": "deterministic simulation with fault injection: seeded event-loop simulator around the real shell arms (virtual clock, in-memory socket seams, fault actions) plus seeded timed event histories on the real core for the bare scheduler; independent eligibility model at every routing decision; seed+plan replay",
     "LW": "deterministic simulation with fault injection: seeded event-loop simulator around the real shell arms (virtual clock, in-memory socket seams, ledger/invariant monitors) plus whole-loop runs of the real run_sender_with_config on a paused-clock current-thread tokio runtime with seeded select! order and wire-level oracles; seed+plan replay",
@@ -58,25 +59,25 @@ P = {
    "Simulation of reloads mid-stream through the mirrored SIGHUP arm (real analyze_ip_reload on a real temp file: missing / empty / whitespace / garbage / mixed / duplicated / IPv4+IPv6) and the real apply_connection_changes at the next tick, 1..5 reloads per run with overlapping, disjoint and equal address sets, duplicate initial addresses and injected bind failures; exact snapshots around the apply call are compared: survivors (identity, socket, full Debug state, order), removed links (list, I/O map, NAK-attribution lookups for numbers they carried), additions (once, in order), routing choice. Seeded sampling of file contents and reload sequences.",
    "Trusted: a parsable address is what std::net::IpAddr::from_str accepts after trimming; an IPv6 uplink towards the IPv4 receiver cannot be created here and may be absent after a reload.",
    "§P-C19"),
- "C03": (True, "K", "exploration",
+ "C03": (True, "KL", "exploration",
    "Timed event histories on the real core (1..4 links; REG3 / REG_ERR / tear-downs, RTT baselines, backlogs, earned and cumulative ACKs, NAKs, echoes, weak / loss-degraded / CC-target stamps, bitrates, clock advances around every boundary, configuration and guard toggles, any previous index) with routing decisions throughout; at every decision an independent usable set (REG3 since last reset, connected, heard within the timeout by the monitor's own stamps, computed from the events alone) must imply that the real select_connection_idx returns a valid index, in both modes and with every gate combination reached. Seeded sampling of histories; reach is reported as decisions with gates engaged / every link under some gate / single usable link.",
-   "Trusted: state is built through the real event API; direct writes only to glue inputs (weak, loss_degraded, cc_target_bps), in-range windows and measured quantities. The few shell lines that stamp core state are mirrored. Engine L's C01/C08 monitors additionally flag any dropped datagram while a usable uplink exists on the real shell.",
+   "Trusted: state is built through the real event API; direct writes only to glue inputs (weak, loss_degraded, cc_target_bps), in-range windows and measured quantities. The few shell lines that stamp core state are mirrored. One run in twenty-one is a closed-loop run on the real shell (engine L: override, reload shrinking the link list to a stall-gated link, weak / loss-degraded stamps on every link between two ticks) in which a client datagram must be queued whenever the monitor's own usable set is non-empty.",
    "§P-C03"),
  "C06": (True, "K", "exploration",
    "Timed histories of earned SRTLA ACKs with the global +1, raw ACK-rule calls with in-flight arguments up to i32::MAX, NAKs isolated and in bursts, time-based recovery at spacings from 0 ms to minutes and RTT velocities from negative to > 2, housekeeping ticks, mark_for_recovery / reconnect / REG3 / REG_ERR, both modes with configuration changed mid-history, from boundary and random starting windows; after every event: range [1000, 60000], direction by event kind, fast-recovery entry (<= 2000) and exit (>= 12000 or reset), 20000 after a tear-down, no change on a classic tick; arithmetic overflow is a panic, hence a violation. Inductive invariant sampled over seeded histories.",
    "Trusted: starting windows written directly but inside the range; the per-link housekeeping calls are mirrored (engine L's C10 monitor checks 'classic housekeeping changes no window' on the real shell).",
    "§P-C06"),
- "C11": (True, "K", "exploration",
+ "C11": (True, "KL", "exploration",
    "Selection histories (generator shared with C03); at every enhanced-mode decision the monitor recomputes eligibility, in-flight cap, 2 % quality gate, 80 % warming weight and soft-cap factor from the pre-state with its own formulas (quality multiplier read back and range-checked in [0.35, 1.1 x 1.03]) and checks the decision relations with relative tolerance 1e-9 (chosen not skipped; capped not chosen while an unconstrained link exists; a switch needs >= 1.10x; a hold means nobody reaches 1.10x; otherwise argmax) plus idempotence on the resulting state. Seeded sampling of score space incl. equal and zero scores, stale caches, skipped previous link.",
-   "Trusted: the quality multiplier value is the one the decision cached (only its range is checked); the stall-gated flag is read back right after the decision.",
+   "Trusted: the quality multiplier value is the one the decision cached (only its range is checked); the stall-gated flag is read back right after the decision. One run in a hundred feeds the same relations from the routing decisions of closed-loop runs on the real shell (ordinary packets only; must-land packets may be overridden by the shell).",
    "§P-C11"),
  "C12": (True, "K", "exploration",
    "Selection histories (generator shared with C03) with guard on/off toggles; around every routing decision the liveness/accounting projection of every link is compared before/after, and with the guard off every stall flag, pull and latch must be cleared and the decision must equal the decision of the real selector on a clone whose stall history was erased. Relational check sampled over seeded histories.",
    "Trusted: hook H7 (derive(Clone, Debug) under the feature, verif_clear_stall_history) reproduces / erases state faithfully.",
    "§P-C12"),
- "C13": (True, "K", "exploration",
+ "C13": (True, "KL", "exploration",
    "Selection histories (generator shared with C03; one event in ten expands into a tempting latch trace: backlog, proof, silence, then single ACK / drained backlog / sustained proof with or without a lapse; RTT baselines none / 20 ms .. 2 s; ceilings below the 1000 ms floor); an independent temporal monitor with its own proof / heard clocks judges every latch and pull edge and the two engagement counters. Temporal contract sampled over seeded traces.",
-   "Trusted: in-flight level and smoothed RTT at a decision are read from the pre-state (they are inputs of the contract, not part of it).",
+   "Trusted: in-flight level and smoothed RTT at a decision are read from the pre-state (they are inputs of the contract, not part of it). One run in a hundred feeds the same temporal monitor from the routing decisions of closed-loop runs on the real shell (black holes, loss, reloads).",
    "§P-C13"),
  "C16": (True, "K", "exploration",
    "Timed histories for the real LinkCcController::tick_all over real connections (RTT samples, cumulative byte / NAK counters, bitrate estimate following per-run regimes with zero / steady / 100x burst rates, ticks 1 ms .. 10 s apart, links leaving and re-entering the tick set, counter resets); after every tick, against the previous snapshot and the tick's inputs: bounds, floor until an RTT sample exists, only-these-transitions-lower-the-cap, growth <= 6 % and <= 2 x measured after seeding, loss-latch temporal rule on the reported loss average. Invariants sampled over seeded histories.",
